@@ -359,16 +359,19 @@ def run(tier, seed, view="C03"):
                 pickle.dump({"key": ckey, "at": time.time(), "view": view, "results": results, "dropped": dropped, "info": info}, open(cpath, "wb"))
             except Exception:
                 pass
+    prebuilt_undecided = []
     if results is None or dropped:
-        print("UNDECIDED property=C03 the harness crate (copied parser + extracted items + spec) does not build: %s" % (
-            (info or {}).get("build_failure", "")[-1500:] if results is None else sorted(dropped)))
-        for k, bl in (dropped or {}).items():
-            log(bl[0][:1500])
-        core.write_evidence(fam, tier, seed, [], results or {}, dropped, info or {}, time.time() - t0, ["build failure"], 0, [])
-        return 2
+        # The function-level harnesses name internal parser functions; if those were renamed / removed the harness crate does not
+        # build under Kani. That alone decides nothing (lost anchor). The native oracle only needs `format_string`, `format` and
+        # `parse_fmt_string`: restore the crate and let the bounded stand-in decide what it can.
+        why = ((info or {}).get("build_failure", "")[-400:] if results is None else "rustc rejected %s: %s" % (
+            sorted(dropped), " | ".join(b[0].splitlines()[0] for b in dropped.values())[:400]))
+        prebuilt_undecided.append("function-level harnesses do not build against the current parser source (internal items changed?): %s" % why.replace("\n", " "))
+        core.write_crate(fam, fam.programs)
+        results, dropped, info = {}, {}, (info or {})
     by_key = {p.key: p for p in fam.programs}
     binpath = build_oracle(log)
-    discharged, undecided, violations = [], [], []
+    discharged, undecided, violations = [], list(prebuilt_undecided), []
     failed = []
     for pretty, r in results.items():
         p = by_key[r["program"]]
